@@ -1,5 +1,6 @@
 """C18 - payment requests cannot be forged or altered (structural part: "parse => signature verified", metadata verification, TLV ranges)."""
 from engine import *
+import provenance
 import tlv, os
 
 OF = 'lightning::offers::'
@@ -504,4 +505,5 @@ RULES = [
 	('18.c', 'stateless metadata verifies only on the constant-time comparison; verify_using_* reach it', r18c),
 	('18.d', 'BOLT-12 TLV types lie in their stream ranges; ranges disjoint', r18d),
 	('18.f', 'signature TLVs are excluded from the signed merkle tree', r18f),
+	('18.q', 'no call hands a value named like one parameter of the callee to a different parameter (swapped type-compatible arguments; rules/provenance.py)', lambda F: provenance.swaps_for_property(F, 'C18', '18.q')),
 ]
